@@ -56,6 +56,10 @@ structure St where
   w : World := {}
   sha : List (String × String) := []
 
+/-- over HTTP the OAuth2 error writer turns any other error into a bare `server_error` -/
+def overHTTP (http : Bool) (line : String) : String :=
+  if http && line == "err:subject-not-found" then "err:server_error/other:" else line
+
 def showResp : Res TokenResponse → String
   | .ok r => s!"200 token={r.token} type={r.tokenType} kid={r.dpopKid.getD "-"} scope={r.scope} expires_in={r.expiresIn}"
   | .err e => "err:" ++ e
@@ -86,7 +90,7 @@ def step (st : St) (j : Json) : St × List String :=
         vps := (jArr j "vps").map parseVP, subDefId := jStr j "def_id", pex := parsePex j "pex",
         claims := parseClaims j "claims", dpop := parseDPoP (jObj j "dpop") }
     let (w', res) := issueS2S st.cfg st.w t r
-    ({ st with w := w' }, [showResp res])
+    ({ st with w := w' }, [overHTTP (jBool j "http") (showResp res)])
   | "seed" =>
     -- the authorization-request leg: client-state session and nonce ↦ state mapping, as
     -- handleAuthorizeRequestFromHolder / nextOpenID4VPFlow store them
@@ -124,7 +128,7 @@ def step (st : St) (j : Json) : St × List String :=
     let tbl := (jArr j "sha").map fun p => (jStr p "in", jStr p "out")
     let sha := fun v => ((tbl.find? (·.1 == v)).map (·.2)).getD ("unknown-digest:" ++ v)
     let (w', res) := issueCode st.cfg sha st.w t r
-    ({ st with w := w' }, [showResp res])
+    ({ st with w := w' }, [overHTTP (jBool j "http") (showResp res)])
   | "introspect" =>
     let res := if jBool j "extended" then introspectExtended st.cfg st.w t (jStr j "token")
                else introspectPlain st.cfg st.w t (jStr j "token")
